@@ -290,7 +290,12 @@ impl<'a> EventListenerFuture for AcquireInner<'a> {
 
         loop {
             match this.semaphore.try_acquire() {
-                Some(guard) => return Poll::Ready(guard),
+                Some(guard) => {
+                    // Drop our listener: if it holds a notification that we did
+                    // not need, it is passed on to the next waiter.
+                    *this.listener = None;
+                    return Poll::Ready(guard);
+                }
                 None => {
                     // Wait on the listener.
                     if this.listener.is_none() {
@@ -343,7 +348,12 @@ impl EventListenerFuture for AcquireArcInner {
 
         loop {
             match this.semaphore.try_acquire_arc() {
-                Some(guard) => return Poll::Ready(guard),
+                Some(guard) => {
+                    // Drop our listener: if it holds a notification that we did
+                    // not need, it is passed on to the next waiter.
+                    *this.listener = None;
+                    return Poll::Ready(guard);
+                }
                 None => {
                     // Wait on the listener.
                     if this.listener.is_none() {
